@@ -21,6 +21,12 @@ func attachMonitors(w *World) {
 	if w.want["C11"] {
 		monC11(w)
 	}
+	if w.want["C05"] {
+		monC05(w)
+	}
+	if w.want["C16"] {
+		monC16(w)
+	}
 	if w.want["C12"] {
 		monC12(w)
 	}
